@@ -6,7 +6,6 @@ import (
 	"fmt"
 	"strings"
 
-	pcss "github.com/tdewolff/parse/v2/css"
 
 	"verifharness/h"
 )
@@ -489,7 +488,28 @@ var c04Fixed = []c04Case{
 	{prop: "flex", value: "1 1 0%"},
 	{prop: "width", value: "0.0em"},
 	{prop: "width", value: "0.0rem"},
+	// fixed findings (commits cdc67a2, 32210ae, ddd07ad+30f2f83, 5361331, 6e2925f, e7baddf): must pass
+	{prop: "background-position", value: "right 10.5% bottom 20%", inline: true},
+	{prop: "background-position", value: "right .5% bottom 20%"},
+	{prop: "background-position", value: "0 0,0 0,left 5px top 3px", inline: true},
+	{prop: "background-position", value: "0,0,left 5px top"},
+	{prop: "width", value: "1.5e10px", css2: true},
+	{prop: "width", value: "0e5px", css2: true},
+	{prop: "width", value: "1.5e0px", css2: true},
+	{prop: "border-style", value: "0.1e1ex", css2: true}, // 30f2f83: a leading zero of an unminified lexeme is not "zero"
+	{prop: "padding", value: "00.6285e-10em", css2: true},
+	{prop: "inset", value: "0.1e1PX", css2: true, inline: true},
+	{prop: "unicode-range", value: "U+5-3", inline: true},
+	{prop: "unicode-range", value: "U+0-10FFFF,U+6-1D,U+12-42", inline: true},
+	{prop: "unicode-range", value: "U+6-1D,U+12-42,U+17-4B"},
+	{prop: "b", value: "c / *d"},
+	{prop: "b", value: "1 / *"},
+	{prop: "b", value: "*/ *x"},
+	{prop: "b", value: "foo(1 / *2)"},
 }
+
+// c04FixedSheets: whole style sheets of fixed findings; the structure check must pass
+var c04FixedSheets = []string{"a{b:c / *d;e:f}g{h:i}", "a{b:1 / *}g{h:i}", "a{b:foo(bar(1)/ *2)}g{h:i}"}
 
 func c04Decl(c *Ctx) error {
 	st := c.R.StartStage("decl", "fixed regression corpus, then generated declarations: every modelled property x value shapes (numbers in every notation x all units, 1-4 sides, colours as hex/name/rgb()/hsl(), line shorthands, font-weight/-family, unicode-range, background-position/-size/-repeat layers, shadows, flex, functions, strings, url(), custom properties, vendor prefixes, IE hacks, !important spellings) x stylesheet/inline mode x KeepCSS2 on/off, Precision 0; real css.Minify bytes vs model.c04.decl and, independently, spec.c04.holds on the re-parsed real output; non-trivial = the minifier changed the text")
@@ -606,10 +626,13 @@ func c04Sheets(c *Ctx) error {
 	}
 	var items []item
 	var lines []string
-	for i := 0; i < n; i++ {
+	for i := 0; i < n+len(c04FixedSheets); i++ {
 		r := c.Rng.Fork()
 		src := c04Sheet(r, shapes, 0)
 		css2 := r.Chance(30)
+		if i < len(c04FixedSheets) {
+			src = c04FixedSheets[i]
+		}
 		out, err, crash := c04Minify(src, false, css2)
 		key := fmt.Sprintf("%q keepCSS2=%v", src, css2)
 		if crash != "" {
@@ -629,17 +652,6 @@ func c04Sheets(c *Ctx) error {
 		}
 		pairs, problem := c04Structure(inEv, outEv)
 		if problem != "" {
-			slashStar := false
-			for _, e := range inEv {
-				if e.gt == pcss.DeclarationGrammar && c04Trigger(string(e.data), e.vals, css2) == "K-C04-15" {
-					slashStar = true
-				}
-			}
-			if slashStar {
-				c.R.ExcludedKnown++
-				st.Tag("known=K-C04-15")
-				continue
-			}
 			if perr {
 				// a parse error re-synchronises differently on the minified text: only reported when the input parses cleanly
 				st.Tag("structure-differs-after-parse-error")
